@@ -162,8 +162,32 @@ def _predicates(db, chk, m, preds, DF):
     f = m.func("IterationIndexFilter.__call__")
     pops = [n for n in ast.walk(f) if isinstance(n, ast.Call) and isinstance(n.func, ast.Attribute) and n.func.attr in ("pop", "remove")]
     srt = [n for n in ast.walk(f) if isinstance(n, ast.Call) and H.name_id(n.func) == "sorted"]
-    chk.ob(rule, "IterationIndexFilter: the iteration list is sorted(unique(...)) and -1 is removed from its head", len(srt) == 1 and "unique" in ast.unparse(srt[0]) and len(pops) == 1,
-           m.loc(f), found=[ast.unparse(x) for x in srt + pops], accepted=["sorted(df['iteration'].unique())", "iterations.pop(0) guarded by iterations[0] == -1"])
+    good, wrong = [], []
+    for n in ast.walk(f):
+        if isinstance(n, ast.If) and H.match("$l[0] == -1", n.test) is not None:
+            body_txt = " ".join(ast.unparse(x) for x in n.body)
+            if any(k in body_txt for k in (".pop(0)", ".remove(-1)", "[1:]")) or any(isinstance(x, ast.Delete) for x in n.body):
+                good.append("if <list>[0] == -1: drop the head")
+        if isinstance(n, ast.IfExp):
+            t_, b_, o_ = n.test, n.body, n.orelse
+            if H.match("$l[0] == -1", t_) is not None and H.match("$l[1:]", b_) is not None and isinstance(o_, ast.Name):
+                good.append("<list>[1:] if <list>[0] == -1 else <list>")
+            if H.match("$l[0] != -1", t_) is not None and H.match("$l[1:]", o_) is not None and isinstance(b_, ast.Name):
+                good.append("<list> if <list>[0] != -1 else <list>[1:]")
+        if isinstance(n, ast.comprehension):
+            for c_ in n.ifs:
+                if any(H.match(p_, c_) is not None for p_ in ("$x != -1", "$x >= 0", "$x > -1")):
+                    good.append("filter " + ast.unparse(c_))
+                elif any(H.match(p_, c_) is not None for p_ in ("$x > 0", "$x >= 1", "$x")) and "iteration_index" not in ast.unparse(c_):
+                    wrong.append("filter " + ast.unparse(c_) + " also drops iteration 0")
+    for pp in pops:
+        guard = m.parent.get(id(m.parent.get(id(pp))))
+        if not (isinstance(guard, ast.If) and H.match("$l[0] == -1", guard.test) is not None):
+            wrong.append("unguarded " + ast.unparse(pp))
+    okhead = len(srt) == 1 and "unique" in ast.unparse(srt[0]) and bool(good) and not wrong
+    chk.ob(rule, "IterationIndexFilter: the iteration list is sorted(unique(...)) and exactly a leading -1 is removed from it", True if okhead else (False if wrong or len(srt) != 1 else None),
+           m.loc(f), found=[ast.unparse(x) for x in srt] + good + wrong, accepted=["sorted(df['iteration'].unique())", "drop the head iff it is -1 (pop(0) / [1:] / != -1 filter)"],
+           why="dropping every non-positive value also removes iteration 0: positions shift by one")
     # name filters
     sm = ("strmatch", "match", col("NAMECOL"), T.P("PATTERN"), ())
     gotn = _sel(preds, "NameStringColumnFilter", True)
